@@ -315,19 +315,38 @@ class Schema:
                         continue
                     if not any(isinstance(x, ast.Raise) for b in n.body + n.orelse for x in ast.walk(b)):
                         continue
-                    for t in ast.walk(n.test):
+                    # atoms of the test with the polarity under which they occur (a comparison under an odd number of `not` is its
+                    # complement): `not (a and len(x) == 1)` and `not a or len(x) != 1` give the same set
+                    flip = {ast.Eq: "NotEq", ast.NotEq: "Eq", ast.Lt: "GtE", ast.GtE: "Lt", ast.Gt: "LtE", ast.LtE: "Gt"}
+
+                    def atoms(t, neg):
+                        if isinstance(t, ast.UnaryOp) and isinstance(t.op, ast.Not):
+                            atoms(t.operand, not neg)
+                            return
+                        if isinstance(t, ast.BoolOp):
+                            for v_ in t.values:
+                                atoms(v_, neg)
+                            return
                         if isinstance(t, ast.Call) and isinstance(t.func, ast.Name) and t.func.id == "isinstance" and t.args \
                                 and isinstance(t.args[0], ast.Name) and t.args[0].id == p:
                             out.add("type:" + "|".join(sorted(x.id for x in ast.walk(t.args[1]) if isinstance(x, ast.Name))))
-                        if isinstance(t, ast.Compare) and isinstance(t.left, ast.Call) and isinstance(t.left.func, ast.Name) and t.left.func.id == "len" \
-                                and self._const_of(t.comparators[0], c.module) is not None:
-                            out.add(f"len{type(t.ops[0]).__name__}{self._const_of(t.comparators[0], c.module)}")
+                            return
                         if isinstance(t, ast.Call) and isinstance(t.func, ast.Attribute) and t.func.attr.startswith("is") and isinstance(t.func.value, ast.Name) \
                                 and t.func.value.id == p:
                             out.add("chars:" + t.func.attr)
-                        if isinstance(t, ast.Compare) and isinstance(t.left, ast.Name) and t.left.id == p and self._const_of(t.comparators[0], c.module) is not None \
-                                and any(isinstance(o, (ast.Lt, ast.Gt, ast.LtE, ast.GtE)) for o in t.ops):
-                            out.add(f"range{type(t.ops[0]).__name__}{self._const_of(t.comparators[0], c.module)}")
+                            return
+                        if isinstance(t, ast.Compare) and len(t.ops) == 1:
+                            opn = flip.get(type(t.ops[0]), type(t.ops[0]).__name__) if neg else type(t.ops[0]).__name__
+                            cv = self._const_of(t.comparators[0], c.module)
+                            if isinstance(t.left, ast.Call) and isinstance(t.left.func, ast.Name) and t.left.func.id == "len" and cv is not None:
+                                out.add(f"len{opn}{cv}")
+                            elif isinstance(t.left, ast.Name) and t.left.id == p and cv is not None and isinstance(t.ops[0], (ast.Lt, ast.Gt, ast.LtE, ast.GtE)):
+                                out.add(f"range{opn}{cv}")
+                            return
+                        for ch in ast.iter_child_nodes(t):
+                            if isinstance(ch, ast.expr):
+                                atoms(ch, neg)
+                    atoms(n.test, False)
         return sorted(out)
 
     def leaf_constraints(self, ci: ClassInfo) -> dict:
